@@ -4,6 +4,8 @@
 #include <stdio.h>
 #include <stdlib.h>
 #include <string.h>
+#include <sys/mman.h>
+#include <unistd.h>
 
 extern "C" {
 FILE *__real_fopen(const char *, const char *);
@@ -16,20 +18,29 @@ void *__real_malloc(size_t);
 }
 
 namespace {
+// The simulated file is a real in-memory file (memfd) behind a real FILE*, so that everything a reader
+// may do with the stream (fileno, fstat, mmap, ...) works; what is simulated is its content and the
+// faults: open failure, descriptor exhaustion, short reads.
 struct SimFile
 {
   char path[256];
   const unsigned char *data;
   size_t n;
-  long pos;
-  bool open;
   int fail_open;
   long short_at;
   unsigned long opens, closes, delivered, shorts, failed_opens;
   int handle_limit;
+  FILE *open_files[64];
+  int nopen;
 } sf;
-// a distinguishable, never dereferenced handle
-FILE *const SIM_HANDLE = (FILE *)(void *)&sf;
+
+int find_open(FILE *f)
+{
+  for (int i = 0; i < sf.nopen; i++)
+    if (sf.open_files[i] == f)
+      return i;
+  return -1;
+}
 
 int alloc_window = 0;
 long alloc_fail_at = -1;
@@ -41,6 +52,8 @@ extern "C" {
 
 void simio_reset(void)
 {
+  for (int i = 0; i < sf.nopen; i++)
+    __real_fclose(sf.open_files[i]);  // handles leaked by the previous run
   memset(&sf, 0, sizeof sf);
   sf.short_at = -1;
   alloc_window = 0;
@@ -52,7 +65,6 @@ void simio_set_file(const char *path, const unsigned char *data, size_t n)
   snprintf(sf.path, sizeof sf.path, "%s", path);
   sf.data = data;
   sf.n = n;
-  sf.pos = 0;
 }
 void simio_fail_open(int on) { sf.fail_open = on; }
 void simio_set_handle_limit(int n) { sf.handle_limit = n; }
@@ -76,65 +88,59 @@ FILE *__wrap_fopen(const char *path, const char *mode)
       errno = ENOENT;
       return nullptr;
     }
-    if (sf.handle_limit > 0 && (long)(sf.opens - sf.closes) >= sf.handle_limit) {
+    if ((sf.handle_limit > 0 && sf.nopen >= sf.handle_limit) || sf.nopen >= 64) {
       sf.failed_opens++;
       errno = EMFILE;  // the process has run out of descriptors: every earlier open must have been closed
       return nullptr;
     }
-    sf.open = true;
-    sf.pos = 0;
+    int fd = memfd_create("rksim-file", 0);
+    if (fd < 0)
+      return nullptr;
+    size_t off = 0;
+    while (off < sf.n) {
+      ssize_t k = write(fd, sf.data + off, sf.n - off);
+      if (k <= 0)
+        break;
+      off += (size_t)k;
+    }
+    lseek(fd, 0, SEEK_SET);
+    FILE *f = fdopen(fd, "r");
+    if (!f) {
+      close(fd);
+      return nullptr;
+    }
+    sf.open_files[sf.nopen++] = f;
     sf.opens++;
-    return SIM_HANDLE;
+    return f;
   }
   return __real_fopen(path, mode);
 }
 int __wrap_fclose(FILE *f)
 {
-  if (f == SIM_HANDLE) {
-    sf.open = false;
+  int i = find_open(f);
+  if (i >= 0) {
+    sf.open_files[i] = sf.open_files[--sf.nopen];
     sf.closes++;
-    return 0;
   }
   return __real_fclose(f);
 }
-int __wrap_fseek(FILE *f, long off, int whence)
-{
-  if (f == SIM_HANDLE) {
-    long base = whence == SEEK_SET ? 0 : (whence == SEEK_CUR ? sf.pos : (long)sf.n);
-    long np = base + off;
-    if (np < 0) {
-      errno = EINVAL;
-      return -1;
-    }
-    sf.pos = np;
-    return 0;
-  }
-  return __real_fseek(f, off, whence);
-}
-long __wrap_ftell(FILE *f)
-{
-  if (f == SIM_HANDLE)
-    return sf.pos;
-  return __real_ftell(f);
-}
+int __wrap_fseek(FILE *f, long off, int whence) { return __real_fseek(f, off, whence); }
+long __wrap_ftell(FILE *f) { return __real_ftell(f); }
 size_t __wrap_fread(void *buf, size_t size, size_t nmemb, FILE *f)
 {
-  if (f == SIM_HANDLE) {
+  if (find_open(f) >= 0) {
     size_t want = size * nmemb;
-    size_t avail = sf.pos < (long)sf.n ? sf.n - (size_t)sf.pos : 0;
-    size_t give = want < avail ? want : avail;
     if (sf.short_at >= 0) {
-      size_t lim = sf.pos < sf.short_at ? (size_t)(sf.short_at - sf.pos) : 0;
-      if (give > lim) {
-        give = lim;
+      long pos = __real_ftell(f);
+      size_t lim = pos < sf.short_at ? (size_t)(sf.short_at - pos) : 0;
+      if (want > lim) {
+        want = lim;
         sf.shorts++;
       }
     }
-    if (give)
-      memcpy(buf, sf.data + sf.pos, give);
-    sf.pos += (long)give;
-    sf.delivered += give;
-    return size ? give / size : 0;
+    size_t got = want ? __real_fread(buf, 1, want, f) : 0;
+    sf.delivered += got;
+    return size ? got / size : 0;
   }
   return __real_fread(buf, size, nmemb, f);
 }
